@@ -132,3 +132,97 @@ TRUSTED = [
 NOT_DECIDED = []
 ASSUMPTIONS = list(TRUSTED)
 MIN_OBLIGATIONS = 8
+
+
+# ---- meat re-timing -----------------------------------------------------------------------------------
+
+
+def fill_contract_clauses(S, arr0, res, n, i):
+    """Postcondition of fill_negatives_with_positives, shared by its own (bounded) proof and by the
+    summary its caller is verified against."""
+    return {
+        "one_entry_per_month": V(unwrap(res).length) == n,
+        "positive_entries_only_shrink": Implies(arr0[i] >= 0, And(res[i] >= 0, res[i] <= arr0[i])),
+        "negative_entries_only_rise": Implies(arr0[i] < 0, And(res[i] >= arr0[i], res[i] <= 0)),
+    }
+
+
+def fill_summary(interp, ctx, fv, args, kwargs):
+    """Callee contract of Parameters.fill_negatives_with_positives used at its call site."""
+    from pyvc.spec import Spec
+    from pyvc.npmodel import np_array
+
+    S = Spec(ctx, interp)
+    arr0 = V(np_array(ctx, args[1], dtype="float"))
+    n = V(unwrap(arr0).length)
+    res = S.fresh_series("filled", n)
+    S.forall(n, lambda i: And(*[c for k, c in fill_contract_clauses(S, arr0, res, n, i).items() if k != "one_entry_per_month"]))
+    S.assume(S.total(res) == S.total(arr0))
+    tot = S.total(arr0)
+    S.forall(n, lambda i: Implies(tot >= 0, res[i] >= 0))
+    return unwrap(res)
+
+
+class FillNegatives(Contract):
+    """Bounded stand-in: the nested data-dependent loops are unrolled for a literal length."""
+    prop = "C18"
+    file = PARAMS
+    func = "Parameters.fill_negatives_with_positives"
+    max_paths = 20000
+
+    def __init__(self, n):
+        self.n = n
+        self.name = f"len{n}"
+        self.bounded = f"series length = {n} (loops unrolled, all sign patterns)"
+
+    def inputs(self, S):
+        arr = S.series("arr", self.n)
+        return dict(args=[S.obj(PARAMS, "Parameters"), arr], arr=arr)
+
+    def ensures(self, S, a, res):
+        n = self.n
+        out = {}
+        for k in range(n):
+            for name, c in fill_contract_clauses(S, a["arr"], res, n, k).items():
+                out[f"{name}[{k}]"] = c
+        out["sum_preserved"] = S.total(res) == S.total(a["arr"])
+        out["all_non_negative_when_total_is"] = Implies(S.total(a["arr"]) >= 0, And(*[res[k] >= 0 for k in range(n)]))
+
+        return out
+
+
+class Retime(Contract):
+    prop = "C18"
+    file = PARAMS
+    func = "Parameters.get_second_round_kcals_with_redistributed_meat"
+    name = "retime"
+    summaries = {(PARAMS, "Parameters.fill_negatives_with_positives"): fill_summary}
+
+    def inputs(self, S):
+        N = S.int("N")
+        S.assume(N >= 1)
+        r1, r2 = S.series("round1_meat", N), S.series("round2_meat", N)
+        S.forall(N, lambda i: And(r1[i] >= 0, r2[i] >= 0))
+        m1, m2 = S.series("milk1", N), S.series("milk2", N)
+        return dict(args=[S.obj(PARAMS, "Parameters"), r1, r2, m1, m2], N=N, r1=r1, r2=r2)
+
+    def ensures(self, S, a, res):
+        t1, t2 = S.total(a["r1"]), S.total(a["r2"])
+        if unwrap(res) is None:
+            return {"declined_only_when_round2_total_is_lower": t1 > t2}
+        i = S.idx("i", a["N"])
+        return {
+            "accepted_only_when_round2_total_not_lower": t1 <= t2,
+            "total_preserved": S.total(res) == t2,
+            "every_month_non_negative": res[i] >= 0,
+            "every_month_at_or_above_no_feed_level": res[i] >= a["r1"][i],
+            "one_entry_per_month": V(unwrap(res).length) == a["N"],
+        }
+
+
+CONTRACTS += [Retime()] + [FillNegatives(n) for n in (1, 2, 3, 4)]
+TRUSTED += [
+    "Parameters.fill_negatives_with_positives enters its caller's proof through its contract (sum preserved, "
+    "entries keep their sign and only move towards zero, all entries >= 0 when the total is >= 0); that contract "
+    "is itself only checked by the bounded stand-in (lengths 1..4) and is therefore an assumption for longer series",
+]
